@@ -1,11 +1,11 @@
-\* the design AS PINNED: the three named deviations are on; the property holds outside them (quick scope)
+\* the design AS PINNED: the three named deviations are on; the property holds outside them (thorough scope)
 SPECIFICATION Spec
 CONSTANTS
   Scenarios <- ScenariosDef
   MaxLen = 6
-  MaxC = 1
+  MaxC = 2
   MaxAtoms = 2
-  Shapes = {"one", "chain"}
+  Shapes = {"one", "chain", "prim"}
   ForeignGuardMisread = TRUE
   StrictPositiveMin = TRUE
   RaiseOnConflict = TRUE
